@@ -10,7 +10,8 @@ pub fn fstr(x: f32) -> String {
         // Handle very small negative values to avoid '-0'
         return "0".to_string();
     }
-    if x == (x as i32) as f32 {
+    // (`as i32` saturates: 2^31 would come out as 2^31 - 1)
+    if x.abs() < 2147483648. && x == (x as i32) as f32 {
         return (x as i32).to_string();
     }
     let result = format!("{x:.3}");
